@@ -1,0 +1,64 @@
+//go:build verif
+
+package dna
+
+// Contracts for property C07 (govc), scope C07d: the ASSEMBLY of the distance matrix in DistMatrix
+// (allocation of the N x N matrix, start of the producer and worker goroutines, wg.Wait(), replacement
+// of every uncomputable distance by 2*max in both mirrored cells). Comments only.
+
+// the list of pairs whose distance is undefined: OFF-DIAGONAL index pairs inside the matrix
+//@ pure func c7d_unc(u []seqpairdist, n int) bool = forall k :: 0 <= k && k < len(u) ==> 0 <= u[k].i && u[k].i < n && 0 <= u[k].j && u[k].j < n && u[k].i != u[k].j
+
+// assumed common contract of the seven implementations of DistModel.InitModel (each has its own PROVED contract in
+// zz_contracts_c08c_verif.go: same precondition, the frame below is the union of their frames: fields of the model only)
+//@ func (DistModel).InitModel
+//@   props C07 C08
+//@   float xreal
+//@   trusted common part (precondition, frame) of the seven InitModel implementations, each proved in zz_contracts_c08c_verif.go
+//@   requires c8c_pre(al, weights)
+//@   modifies field(JCModel.gamma), field(JCModel.alpha), field(JCModel.numSites), field(JCModel.selectedSites), field(JCModel.sequenceCodes)
+//@   modifies field(K2PModel.gamma), field(K2PModel.alpha), field(K2PModel.numSites), field(K2PModel.selectedSites), field(K2PModel.sequenceCodes)
+//@   modifies field(PDistModel.numSites), field(PDistModel.selectedSites), field(PDistModel.sequenceCodes)
+//@   modifies field(RawDistModel.numSites), field(RawDistModel.selectedSites), field(RawDistModel.sequenceCodes)
+//@   modifies field(TN93Model.gamma), field(TN93Model.alpha), field(TN93Model.pi), field(TN93Model.numSites), field(TN93Model.selectedSites), field(TN93Model.sequenceCodes)
+//@   modifies field(F81Model.gamma), field(F81Model.alpha), field(F81Model.pi), field(F81Model.b1), field(F81Model.numSites), field(F81Model.selectedSites), field(F81Model.sequenceCodes)
+//@   modifies field(F84Model.gamma), field(F84Model.alpha), field(F84Model.pi), field(F84Model.a), field(F84Model.b), field(F84Model.c), field(F84Model.numSites), field(F84Model.selectedSites), field(F84Model.sequenceCodes)
+
+//@ func DistMatrix
+//@   props C07 C08
+//@   float xreal
+//@   requires al != nil && model != nil && c8c_pre(al, weights)
+//@   goinv al != nil && model != nil && gf(locked, mux) == 0
+//@   goinv len(outmatrix) == nrows(al) && c8_sq(outmatrix, len(outmatrix)) && c8_rows(outmatrix, len(outmatrix))
+//@   goinv c8_sym(outmatrix, len(outmatrix)) && c8_diag0(outmatrix, len(outmatrix))
+//@   goinv c7d_unc(uncompute, len(outmatrix))
+//@   goinv isfin(max) && fin(max) >= 0.0
+//@   ensures err == nil ==> c8_sq(outmatrix, nrows(al)) && c8_rows(outmatrix, nrows(al))
+//@   ensures err == nil ==> c8_sym(outmatrix, nrows(al)) && c8_diag0(outmatrix, nrows(al))
+//@   modifies mem(float64), mem(seqpairdist), gf(wgdone), gf(wgadded), gf(locked)
+//@   modifies field(seqpairdist.i), field(seqpairdist.j), field(seqpairdist.seq1), field(seqpairdist.seq2), field(seqpairdist.model), field(seqpairdist.weights)
+//@   modifies field(JCModel.gamma), field(JCModel.alpha), field(JCModel.numSites), field(JCModel.selectedSites), field(JCModel.sequenceCodes)
+//@   modifies field(K2PModel.gamma), field(K2PModel.alpha), field(K2PModel.numSites), field(K2PModel.selectedSites), field(K2PModel.sequenceCodes)
+//@   modifies field(PDistModel.numSites), field(PDistModel.selectedSites), field(PDistModel.sequenceCodes)
+//@   modifies field(RawDistModel.numSites), field(RawDistModel.selectedSites), field(RawDistModel.sequenceCodes)
+//@   modifies field(TN93Model.gamma), field(TN93Model.alpha), field(TN93Model.pi), field(TN93Model.numSites), field(TN93Model.selectedSites), field(TN93Model.sequenceCodes)
+//@   modifies field(F81Model.gamma), field(F81Model.alpha), field(F81Model.pi), field(F81Model.b1), field(F81Model.numSites), field(F81Model.selectedSites), field(F81Model.sequenceCodes)
+//@   modifies field(F84Model.gamma), field(F84Model.alpha), field(F84Model.pi), field(F84Model.a), field(F84Model.b), field(F84Model.c), field(F84Model.numSites), field(F84Model.selectedSites), field(F84Model.sequenceCodes)
+//@   loop 1
+//@     invariant 0 <= i && i <= nrows(al) && len(outmatrix) == nrows(al) && fresh(outmatrix)
+//@     invariant forall r :: 0 <= r && r < i ==> len(outmatrix[r]) == nrows(al) && fresh(outmatrix[r])
+//@     invariant forall r1, r2 :: 0 <= r1 && r1 < r2 && r2 < i ==> base(outmatrix[r1]) != base(outmatrix[r2])
+//@     invariant forall r, c :: 0 <= r && r < i && 0 <= c && c < nrows(al) ==> isfin(outmatrix[r][c]) && fin(outmatrix[r][c]) == 0.0
+//@     decreases nrows(al) - i
+//@   loop 2
+//@     invariant gf(locked, mux) == 0
+//@     invariant len(outmatrix) == nrows(al) && c8_sq(outmatrix, len(outmatrix)) && c8_rows(outmatrix, len(outmatrix))
+//@     invariant c8_sym(outmatrix, len(outmatrix)) && c8_diag0(outmatrix, len(outmatrix))
+//@     invariant c7d_unc(uncompute, len(outmatrix))
+//@     invariant isfin(max) && fin(max) >= 0.0
+//@   loop 3
+//@     invariant len(outmatrix) == nrows(al) && c8_sq(outmatrix, len(outmatrix)) && c8_rows(outmatrix, len(outmatrix))
+//@     invariant c8_sym(outmatrix, len(outmatrix)) && c8_diag0(outmatrix, len(outmatrix))
+//@     invariant c7d_unc(uncompute, len(outmatrix))
+//@     invariant forall k :: 0 <= k && k < $i ==> isfin(outmatrix[uncompute[k].i][uncompute[k].j]) && fin(outmatrix[uncompute[k].i][uncompute[k].j]) == 2.0 * fin(max)
+//@     invariant forall k :: 0 <= k && k < $i ==> isfin(outmatrix[uncompute[k].j][uncompute[k].i]) && fin(outmatrix[uncompute[k].j][uncompute[k].i]) == 2.0 * fin(max)
